@@ -527,12 +527,27 @@ func (c *Client) completeCommand(cmd command, err error) {
 func (c *Client) registerContReq(cmd command) *imapwire.ContinuationRequest {
 	contReq := imapwire.NewContinuationRequest()
 
+	// If the command has already been completed (e.g. because the connection
+	// has been closed), nobody will ever cancel the continuation request
+	pending := false
 	c.mutex.Lock()
-	c.contReqs = append(c.contReqs, continuationRequest{
-		ContinuationRequest: contReq,
-		cmd:                 cmd.base(),
-	})
+	for _, pendingCmd := range c.pendingCmds {
+		if pendingCmd.base() == cmd.base() {
+			pending = true
+			break
+		}
+	}
+	if pending {
+		c.contReqs = append(c.contReqs, continuationRequest{
+			ContinuationRequest: contReq,
+			cmd:                 cmd.base(),
+		})
+	}
 	c.mutex.Unlock()
+
+	if !pending {
+		contReq.Cancel(fmt.Errorf("imapclient: command has already completed"))
+	}
 
 	return contReq
 }
